@@ -71,6 +71,7 @@ theorem srcSteps_src (tr : Key → Bool) (dflt : Int) (rank : String) (l0 : Nat)
     cases s with
     | emit j => simp at e; subst e; exact lfSteps_src _ _ _ _ _ _ _ _ _ j hs
     | yield c p => simp at e
+  | dense x n => intro i hm; simp [srcSteps] at hm
   | proj x sr off lo hi own =>
     intro i hm
     simp only [srcSteps, List.mem_map] at hm
@@ -150,6 +151,16 @@ theorem levelItems_ok (tr : Key → Bool) (dflt : Int) (lv : Level) (env : Env) 
           simp [itemKey] at hkey
         simp [levelNames, ← hkey]
       · intro k; exact iterItems_sorted _ _ _ _ _ _ k
+    · -- a dense Ref loop
+      refine ⟨denseItems_sep _ _ _ _ _ _ _, ?_, ?_, ?_⟩
+      · intro y hy
+        obtain ⟨s', c, p, e⟩ := denseItems_subs _ _ _ _ _ _ _ y hy
+        exact ⟨_, e⟩
+      · intro it hi k hkey
+        rcases denseItems_mem _ _ _ _ _ _ _ it hi with ⟨c, j', e⟩ | ⟨s', c, p, e⟩ | e <;> subst e <;>
+          simp [itemKey] at hkey
+        simp [levelNames, ← hkey]
+      · intro k; exact denseItems_sorted _ _ _ _ _ _ _ k
     · -- a lazy source
       have hsrc := srcSteps_src tr dflt lv.rank 0 env lv.src
       have hty := srcKeys_ty lv.rank 0 lv.src
